@@ -250,6 +250,66 @@ fn reader_case(world: u64, plan: &Plan, out: &mut Out) {
         &format!("world {}: {} replies while another thread indexed and rolled back block #{} {} times; (capacity, tip) pairs seen: {:?}", world, reads, top, cycles, seen));
 }
 
+/// readers, second kind: get_transactions / get_cells with `filter.script` (answered from TWO indexes: the searched script's and the
+/// filter script's) on one thread while another indexes a block of many matching cells and rolls it back, over and over.  Every
+/// answer must be the one of the store without the block or the one with it.
+fn reader_case_filtered(world: u64, plan: &Plan, out: &mut Out) {
+    let mut w = build(plan);
+    w.exec(&Op::Init);
+    if w.pool.len() < 2 { return; }
+    let (a, b) = (w.pool[0].clone(), w.pool[1].clone());
+    w.storage.update_filter_scripts(vec![
+        crate::storage::ScriptStatus { script: a.clone(), script_type: ScriptType::Lock, block_number: 0 },
+        crate::storage::ScriptStatus { script: b.clone(), script_type: ScriptType::Type, block_number: 0 }], crate::storage::SetScriptsCommand::All);
+    let top = 5u64;
+    let n_txs = 60 + (world % 3) * 40;
+    let txs: Vec<packed::Transaction> = (0..n_txs).map(|i| {
+        let output = packed::CellOutput::new_builder().capacity((100_0000_0000u64 + i).pack()).lock(a.clone()).type_(Some(b.clone()).pack()).build();
+        let raw = packed::RawTransaction::new_builder().outputs(vec![output].pack()).outputs_data(vec![ckb_types::bytes::Bytes::new().pack()].pack()).version((world as u32).pack()).build();
+        packed::Transaction::new_builder().raw(raw).build()
+    }).collect();
+    let raw = packed::RawHeader::new_builder().number(top.pack()).timestamp((T0 + world).pack()).build();
+    let block = packed::Block::new_builder().header(packed::Header::new_builder().raw(raw).build()).transactions(txs.pack()).build();
+    let grouped = world % 2 == 1;
+    let mk_rpc = |st: &Storage| BlockFilterRpcImpl { swc: StorageWithChainData::new(st.clone(), Arc::new(Peers::new(1, 10, st.get_last_check_point())), Default::default()) };
+    let key = || crate::service::SearchKey { script: a.clone().into(), script_type: crate::service::ScriptType::Lock,
+        filter: Some(crate::service::SearchKeyFilter { script: Some(b.clone().into()), script_len_range: None, output_data_len_range: None, output_capacity_range: None, block_range: None }),
+        with_data: Some(false), group_by_transaction: Some(grouped) };
+    let count_txs = |rpc: &BlockFilterRpcImpl| -> Option<u64> { rpc.get_transactions(key(), crate::service::Order::Asc, 1000u32.into(), None).ok().map(|p| p.objects.len() as u64) };
+    let count_cells = |rpc: &BlockFilterRpcImpl| -> Option<u64> { rpc.get_cells(key(), crate::service::Order::Asc, 1000u32.into(), None).ok().map(|p| p.objects.len() as u64) };
+    let rpc0 = mk_rpc(&w.storage);
+    let (t_without, c_without) = (count_txs(&rpc0).unwrap_or(0), count_cells(&rpc0).unwrap_or(0));
+    w.storage.filter_block(block.clone());
+    let (t_with, c_with) = (count_txs(&rpc0).unwrap_or(0), count_cells(&rpc0).unwrap_or(0));
+    w.storage.rollback_to_block(top);
+    if t_with == t_without { return; }
+    let stop = Arc::new(std::sync::atomic::AtomicBool::new(false));
+    let (st_w, stop_w) = (w.storage.clone(), stop.clone());
+    let writer = std::thread::spawn(move || {
+        let mut cycles = 0u64;
+        while !stop_w.load(std::sync::atomic::Ordering::Relaxed) {
+            st_w.filter_block(block.clone());
+            st_w.rollback_to_block(top);
+            cycles += 1;
+        }
+        cycles
+    });
+    let rpc = mk_rpc(&w.storage);
+    let reads = 600;
+    let mut seen: std::collections::BTreeMap<(&'static str, u64), u64> = Default::default();
+    let mut bad: Vec<String> = Vec::new();
+    for _ in 0..reads {
+        if let Some(t) = count_txs(&rpc) { *seen.entry(("get_transactions", t)).or_insert(0) += 1; if t != t_with && t != t_without && bad.len() < 3 { bad.push(format!("get_transactions returned {} entries (without the block: {}, with it: {})", t, t_without, t_with)); } }
+        if let Some(c) = count_cells(&rpc) { *seen.entry(("get_cells", c)).or_insert(0) += 1; if c != c_with && c != c_without && bad.len() < 3 { bad.push(format!("get_cells returned {} cells (without the block: {}, with it: {})", c, c_without, c_with)); } }
+    }
+    stop.store(true, std::sync::atomic::Ordering::Relaxed);
+    let cycles = writer.join().unwrap_or(0);
+    let oracle = if bad.is_empty() { Ok(()) } else { Err(format!("[C17-reader-saw-mixed-state] a query with filter.script saw a part of block #{}: {}; no store state ever held that", top, bad.join("; "))) };
+    out.case(&format!("reader-filtered-{}", world), &["reader", "filter.script"], "(VN 1)", &Val::n(1), oracle,
+        &format!("world {}: {} get_transactions{} and {} get_cells replies with filter.script while another thread indexed and rolled back a block of {} matching cells {} times; (query, entries) seen: {:?}",
+            world, reads, if grouped { " (grouped)" } else { "" }, reads, n_txs, cycles, seen));
+}
+
 pub(crate) fn run(seed: u64, n: u64, out: &mut Out) {
     let guard = ckb_systemtime::faketime();
     guard.set_faketime(T0);
@@ -260,6 +320,7 @@ pub(crate) fn run(seed: u64, n: u64, out: &mut Out) {
         let fork_at = rng.range(len - 12, len - 6);
         let plan = Plan { seed: seed * 7_000 + world, len, fork_at, ops: vec![], last_n: 20 };
         reader_case(world, &plan, out);
+        reader_case_filtered(world, &plan, out);
         for tip_one in [false, true] {
         // (second pass: the client's stored tip is block #1 and the "fork-switch" message is a heavier proof from there - the rollback of
         // commit_prove_state's block#1 branch next to set_scripts)
